@@ -752,6 +752,11 @@ pub fn run_property(prop: &Property, opts: &RunOpts, extra: Option<Extra>) -> i3
             r.discards,
             ts.elapsed().as_secs_f64()
         );
+        if std::env::var("VERIF_LABELS").is_ok() {
+            for (k, v) in &r.labels {
+                eprintln!("    {k}: {v}");
+            }
+        }
     }
 
     let mut extra_json = BTreeMap::new();
